@@ -136,6 +136,8 @@ impl BroadcastingStore {
         // as long as every send found a receiver the stream is gap-free and ends exactly at last_sent_height
         &&& (!hi.no_receiver && hi.sent.len() > 0 ==> gap_free(hi.sent) && hi.sent.last() == self.last_sent_height.unwrap())
         &&& (self.last_sent_height.is_some() ==> hi.sent.len() > 0 && self.last_sent_height.unwrap() <= hmax())
+        // nothing waits before the stream is initialised
+        &&& (self.last_sent_height.is_none() ==> self.pending@.len() == 0)
     }
     // no pending range could be sent right now
     pub open spec fn drained(&self) -> bool {
@@ -152,6 +154,11 @@ impl BroadcastingStore {
             old(self).last_sent_height.is_none() ==> final(self).last_sent_height == Some(head.h) && final(self).hist@.sent == old(self).hist@.sent.push(head.h),
             // re-initialisation: nothing is sent, the head waits in `pending`
             old(self).last_sent_height.is_some() ==> final(self).last_sent_height == old(self).last_sent_height && final(self).hist@.sent == old(self).hist@.sent,
+            // C37 completeness ("every height up to H once all were inserted"): nothing sendable may be left waiting.
+            // KNOWN FINDING D20: a re-announced head that directly continues the stream (last_sent + 1) waits in
+            // `pending` until the next forward insert
+            old(self).last_sent_height.is_some() && old(self).drained() ==> final(self).drained(),
+            old(self).last_sent_height.is_none() ==> final(self).drained(),
 //@hint entry
         // the network head is inserted into the store by the syncer's try_init before init_broadcast is called
         vx_announce_head(&mut self.hist, head.h);
@@ -224,14 +231,19 @@ impl BroadcastingStore {
 //@props C37
     pub(crate) async fn announce_insert(&mut self, range: Vec<ExtendedHeader>) -> (r: Result<(), StoreError>)
         requires
-            old(self).inv(), old(self).drained(),
+            // (NOT assumed: that no pending range is sendable on entry - a re-initialisation may have queued the head last_sent+1)
+            old(self).inv(),
             // the syncer has initialised the stream (first `expect`)
             old(self).last_sent_height.is_some(),
             // the debug_assert: a range never straddles last_sent_height (call sites: fetched/announced heights are not yet synced, C24)
             range@.len() > 0 ==> (range@.last().h < old(self).last_sent_height.unwrap() || range@[0].h > old(self).last_sent_height.unwrap()),
             forall|i: int| 0 <= i < range@.len() ==> (#[trigger] range@[i]).h <= hmax(),
         ensures
-            final(self).inv(), final(self).drained(),
+            final(self).inv(),
+            // a stored forward range triggers the scan of `pending`: afterwards nothing sendable is left waiting
+            (r.is_ok() && range@.len() > 0 && range@[0].h > old(self).last_sent_height.unwrap()) ==> final(self).drained(),
+            // the other paths (empty, historical, rejected) leave `pending` alone
+            old(self).drained() ==> final(self).drained(),
             // nothing is handed to the channel unless the store accepted the range first
             r.is_err() ==> final(self).hist@.sent == old(self).hist@.sent && final(self).last_sent_height == old(self).last_sent_height,
             // historical ranges are only stored
